@@ -1,6 +1,7 @@
 package mp4
 
 import (
+	"fmt"
 	"encoding/binary"
 	"io"
 
@@ -72,6 +73,9 @@ func DecodeFtyp(hdr BoxHeader, startPos uint64, r io.Reader) (Box, error) {
 
 // DecodeFtypSR - box-specific decode
 func DecodeFtypSR(hdr BoxHeader, startPos uint64, sr bits.SliceReader) (Box, error) {
+	if hdr.payloadLen() < 8 {
+		return nil, fmt.Errorf("ftyp: payload size %d less than 8 (major brand and minor version)", hdr.payloadLen())
+	}
 	return &FtypBox{data: sr.ReadBytes(hdr.payloadLen())}, sr.AccError()
 }
 
